@@ -239,6 +239,14 @@ CoreSMTSolver::handleUnsat()
     // Reset skip step for uns calls
     skip_step = config.sat_initial_skip_step;
 
+#ifdef OPENSMT_VERIF
+    if (veriftrace::on() and not logsResolutionProof() and decisionLevel() == 0) {
+        // make the theory conflict behind a top-level T-unsat answer visible (traced by THandler::getConflict)
+        vec<Lit> verifConflict;
+        int verifLevel;
+        theory_handler.getConflict(verifConflict, vardata, verifLevel);
+    }
+#endif
     if (!logsResolutionProof()) {
         // Top-level conflict, problem is T-Unsatisfiable
         if (decisionLevel() == 0) {
